@@ -369,7 +369,8 @@ Definition lstep (p : list ltable) (o : op) : lres :=
               | None => LSkip
               | Some c =>
                   if negb (Nat.eqb (l_fam k) (l_fam t)) then LErr
-                  else if negb (forallb (fun x => mem_N x (ia (l_rowid t))) (ia (l_rowid k))) then LSkip
+                  (* rows the column lacks: Index.index raises KeyError, as does the exactness test after searchsorted *)
+                  else if negb (forallb (fun x => mem_N x (ia (l_rowid t))) (ia (l_rowid k))) then LErr
                   else match sel_positions c k with
                        | None => LErr
                        | Some ps =>
